@@ -131,9 +131,112 @@ def check_instances(instances):
     return out
 
 
+def check_to_expr(instances):
+    """`cover_enum.to_expr(fol, u, care)`: one DNF per minimum cover, each equivalent to the predicate on the care set.
+
+    The strings are re-read with omega's parser into `sem` trees; z3 decides CARE => (U <=> DNF) on the exported BDDs for
+    all assignments within the bit ranges; the number of DNFs equals the number of enumerated covers and no two are
+    equivalent as sets of disjunct strings."""
+    import z3
+    import omega.logic.lexyacc as lexyacc
+    import omega.symbolic.cover_enum as cove
+    from vlib import bdd2smt, link, sem
+    parser = lexyacc.Parser()
+    out = []
+    for inst in instances:
+        ctx, names, ranges, pts, f, care, desc = c09.build(inst)
+        if f == ctx.false or care == ctx.false or (f == ctx.true and care == ctx.true):
+            continue
+        name = f'to_expr (all minimal DNFs) {inst["decl"]} {desc[:70]}'
+        sample = dict(decl=c09.DECLS[inst['decl']], instance=desc[:300])
+        t1 = time.time()
+        try:
+            dnfs = cove.to_expr(ctx, f, care=care)
+            covers = cove.minimize(f, care, ctx)
+        except Exception as e:  # noqa
+            import traceback
+            tb = traceback.extract_tb(e.__traceback__)
+            where = next((fr for fr in reversed(tb) if 'cover' in fr.filename), tb[-1])
+            line = (where.line or '').strip()
+            out.append(core.res(name, 'violation', sample=sample, nontrivial=True, functions=FUNCS,
+                                signature=f'enum:{type(e).__name__}@{where.name}:{line.split(",")[0][:70]}',
+                                detail=f'cover_enum.to_expr raised {type(e).__name__} at {where.name}:{where.lineno} `{line[:60]}` on {desc[:160]}',
+                                cex=dict(inst=inst, kind='raise-to_expr')))
+            continue
+        exp = bdd2smt.Exporter(ctx.bdd)
+        bits = exp.bits
+        U, CARE = exp.export(f), exp.export(care)
+        table = {n: ctx.vars[n] for n in names}
+        env = sem.Env(table, bits)
+        q = {}
+        problems = []
+        if len(dnfs) != len(covers):
+            problems.append(f'{len(dnfs)} formulas for {len(covers)} minimum covers')
+        keys = set()
+        for s_ in dnfs:
+            text = s_.replace('care expression', 'TRUE')
+            try:
+                G = sem.to_z3(sem.from_omega(parser.parse(text), table), env)[0]
+            except Exception as e:  # noqa
+                problems.append(f'formula {s_[-120:]!r} is not accepted by the parser: {type(e).__name__}: {str(e)[:60]}')
+                continue
+            sol = z3.Solver()
+            sol.set('timeout', 60000)
+            sol.add(CARE, z3.Xor(U, G))
+            r = str(sol.check())
+            q[r] = q.get(r, 0) + 1
+            if r == 'sat':
+                problems.append(f'formula {s_[-120:]!r} differs from the predicate at care point {link.model_values(sol.model(), table, bits)}')
+            elif r != 'unsat':
+                problems.append('unknown')
+            keys.add(' '.join(s_.split()))
+        if len(keys) != len(dnfs):
+            problems.append('the same formula is returned twice')
+        dt = time.time() - t1
+        sample.update(formulas=len(dnfs), first=(dnfs[0][-200:] if dnfs else ''))
+        if not problems:
+            out.append(core.res(name, 'holds', queries=q, solver_s=dt, sample=sample, nontrivial=len(dnfs) >= 2, functions=FUNCS,
+                                extra=dict(multi=len(dnfs) >= 2)))
+        elif problems == ['unknown']:
+            out.append(core.res(name, 'inconclusive', queries=q, solver_s=dt, sample=sample, detail='solver unknown'))
+        else:
+            ok, why = replay(dict(cex=dict(inst=inst, kind='to_expr')))
+            out.append(core.res(name, 'violation' if ok else 'inconclusive', queries=q, solver_s=dt, sample=sample, nontrivial=True,
+                                functions=FUNCS, signature='enum-to_expr:' + problems[0].split(' ')[0],
+                                detail=f'{desc[:160]}: {problems[0]}; replay: {why}', cex=dict(inst=inst, kind='to_expr')))
+    return out
+
+
+def replay_to_expr(inst):
+    """No z3: every formula evaluated at every domain point with sem.eval_py against truth tables read by Context.let."""
+    import omega.logic.lexyacc as lexyacc
+    import omega.symbolic.cover_enum as cove
+    from vlib import coverlib, sem
+    ctx, names, ranges, pts, f, care, desc = c09.build(inst)
+    try:
+        dnfs = cove.to_expr(ctx, f, care=care)
+        covers = cove.minimize(f, care, ctx)
+    except Exception as e:  # noqa
+        return True, f'raised {type(e).__name__}: {e}'
+    if len(dnfs) != len(covers) or len({' '.join(s_.split()) for s_ in dnfs}) != len(dnfs):
+        return True, f'{len(dnfs)} formulas ({len(set(dnfs))} distinct) for {len(covers)} covers'
+    F = coverlib.truth_table(ctx, f, names, pts)
+    CARE = coverlib.truth_table(ctx, care, names, pts)
+    table = {n: ctx.vars[n] for n in names}
+    parser = lexyacc.Parser()
+    for s_ in dnfs:
+        tree = sem.from_omega(parser.parse(s_.replace('care expression', 'TRUE')), table)
+        for p_ in pts:
+            if CARE[p_] and bool(sem.eval_py(tree, table, dict(zip(names, p_)))) != bool(F[p_]):
+                return True, f'formula {s_[-100:]!r} is {not F[p_]} at {dict(zip(names, p_))}, the predicate is {F[p_]}'
+    return False, 'all formulas agree with the predicate on the care set'
+
+
 def replay(payload):
     from vlib import coverlib
     c = payload['cex']
+    if c.get('kind') in ('to_expr', 'raise-to_expr'):
+        return replay_to_expr(c['inst'])
     r = analyse(c['inst'])
     if r is None:
         return False, 'instance refused by preconditions'
@@ -173,6 +276,11 @@ def run(tier, seed, t0, only=None):
     for i in range(0, min(len(insts), 3 * size), size):
         tasks.append(dict(mod='vlib.props.c10', fn='check_instances', kw=dict(instances=insts[i:i + size][::4]),
                           backend='autoref', timeout=3000, name=f'autoref:instances[{i}]'))
+    small = [i for i in insts if i['decl'] in ('b3', 'g44', 's', 'n')]
+    small = small[::3] if tier == 'quick' else small
+    for i in range(0, len(small), size):
+        tasks.append(dict(mod='vlib.props.c10', fn='check_to_expr', kw=dict(instances=small[i:i + size]), timeout=3000,
+                          name=f'to_expr[{i}]'))
     if only:
         tasks = [t for t in tasks if only in t['name']]
     results = core.run_tasks(tasks)
